@@ -68,7 +68,8 @@ def source_dict(case, i):
 
 
 def spec_fold(case, fmt):
-    state = None
+    # a JSON target may exist before the first write, written by hand / another tool: its strings are data as they are
+    state = copy.deepcopy(case["initial"]) if case.get("initial") is not None else None
     states = []
     for i, (_, mode) in enumerate(case["seq"]):
         if i in (case.get("reread") or {}) and state is not None:
@@ -87,6 +88,7 @@ def spec_fold(case, fmt):
 
 
 EXT = {"native": "", "foam": ".foam", "json": ".json"}
+KEYS_JSON = ["id", "code", "ver", "tag"]
 
 
 def oracle(case: dict):
@@ -96,6 +98,10 @@ def oracle(case: dict):
     tmp = native.scratch_dir("c16_")
     try:
         target = tmp / ("target" + EXT[fmt])
+        if case.get("initial") is not None:
+            import json as _json
+
+            target.write_text(_json.dumps(case["initial"], indent=2))
         for i, (d, mode) in enumerate(seq):
             try:
                 if i in (case.get("reread") or {}) and target.exists():
@@ -124,10 +130,10 @@ def shrink(case):
     for i in range(len(seq)):
         if not any(j >= i for j in al):
             if not case.get("reread"):
-                yield {"fmt": case["fmt"], "seq": seq[:i] + seq[i + 1:], "alias": al}
+                yield {"fmt": case["fmt"], "seq": seq[:i] + seq[i + 1:], "alias": al, "initial": case.get("initial")}
     for i, (d, m) in enumerate(seq):
         for d2 in gen.shrink_tree(d):
-            yield {"fmt": case["fmt"], "seq": seq[:i] + [(d2, m)] + seq[i + 1:], "alias": al, "reread": case.get("reread") or {}}
+            yield {"fmt": case["fmt"], "seq": seq[:i] + [(d2, m)] + seq[i + 1:], "alias": al, "reread": case.get("reread") or {}, "initial": case.get("initial")}
 
 
 KNOWN_PREDICATES = {}
@@ -210,6 +216,12 @@ def run(ctx):
             seq[j] = (seq[j][0], "a")
             reread[j] = rng.sample([k for k in KEYPOOL if fmt != "json" or isinstance(k, str)], rng.randrange(1, 4))
         cases.append({"fmt": fmt, "seq": seq, "alias": alias, "reread": reread})
+        if fmt == "json" and i % 2 == 0:
+            # an existing JSON file holding strings that spell numbers / booleans / null, or carry quote characters: appending
+            # must leave them exactly as they are
+            pool = ["007", "2.10", "false", "null", "0150", "1e5", "'q'", "00123", " 12 ", "True"]
+            initial = {rng.choice(KEYS_JSON): rng.choice(pool), "serial": rng.choice(pool), "deep": {"zip": rng.choice(pool), "l": [rng.choice(pool), "x"]}}
+            cases[-1] = dict(cases[-1], initial=initial, reread={})
     for c in cases:
         r = oracle(c)
         if r:
